@@ -211,6 +211,9 @@ pub struct Interp<'a> {
     pub trace: Vec<TraceEntry>,
     /// number of failures met before each trace entry was pushed
     pub fail_before: Vec<usize>,
+    /// number of failed messages that carried attached funds, before each trace entry
+    pub funded_fail_before: Vec<usize>,
+    pub funded_failures: usize,
     /// whys[i] explains why trace position i (or the end of the trace) looks the way it does
     pub whys: Vec<(usize, Why)>,
     pub sites: Vec<Site>,
@@ -238,6 +241,8 @@ impl<'a> Interp<'a> {
             reply_lookup: BTreeMap::new(),
             trace: vec![],
             fail_before: vec![],
+            funded_fail_before: vec![],
+            funded_failures: 0,
             whys: vec![],
             sites: vec![],
             failures: 0,
@@ -487,6 +492,7 @@ impl<'a> Interp<'a> {
                 // the query entry point runs (trace entry) and reads the *view*
                 let idx = self.trace.len();
                 self.fail_before.push(self.failures);
+        self.funded_fail_before.push(self.funded_failures);
                 self.trace.push(TraceEntry {
                     kind: Kind::Query,
                     code_tag: code.tag,
@@ -584,6 +590,7 @@ impl<'a> Interp<'a> {
         let view = self.st.clone();
         let idx = self.trace.len();
         self.fail_before.push(self.failures);
+        self.funded_fail_before.push(self.funded_failures);
         self.trace.push(TraceEntry {
             kind,
             code_tag: code.tag,
@@ -760,6 +767,13 @@ impl<'a> Interp<'a> {
             }
             Err(()) => {
                 self.st = keep;
+                let funded = match &rt.msg {
+                    CosmosMsg::Wasm(WasmMsg::Execute { funds, .. }) | CosmosMsg::Wasm(WasmMsg::Instantiate { funds, .. }) | CosmosMsg::Wasm(WasmMsg::Instantiate2 { funds, .. }) => funds.iter().any(|c| !c.amount.is_zero()),
+                    _ => false,
+                };
+                if funded {
+                    self.funded_failures += 1;
+                }
                 if matches!(s.reply_on, RO::Error | RO::Always) {
                     self.why(Why::ReplyDue { child_ok: false, reply_node: s.reply });
                     let rec = ReplyRec { id: s.id, payload: s.payload.0.clone(), ok: false, events: vec![], data: None, msg_values: vec![] };
